@@ -5,7 +5,7 @@ Require Import PG.Base.Bytes PG.Base.GoSlice PG.Base.Value.
 Require Import PG.C02.Model PG.C02.Spec PG.C02.Pure PG.C02.SpecProofs PG.C02.Refine.
 Require Import PG.C03.Model PG.C03.Refine.
 Require Import PG.C10.Locality.
-Require PG.Props.C02 PG.Props.C03 PG.Props.C16 PG.Props.C20.
+Require PG.Props.C02 PG.Props.C03 PG.Props.C04 PG.Props.C05 PG.Props.C06 PG.Props.C07 PG.Props.C13 PG.Props.C15 PG.Props.C16 PG.Props.C19 PG.Props.C20.
 
 (* ---- no panic: for ALL byte strings, ALL capacity tails, ALL schemas ---- *)
 Theorem C10_no_panic_ReadTuples : forall s v, ReadTuples s v <> Panic.
@@ -26,6 +26,42 @@ Theorem C10_no_panic_Sequence : forall s,
   PG.C20.SeqModel.ParseSequenceFile s <> Panic /\ PG.C20.SeqModel.parseSequenceTuple s <> Panic /\
   PG.C20.SeqModel.IsSequenceFile s <> Panic.
 Proof. exact PG.Props.C20.C20_sequence_no_panic. Qed.
+
+
+(* ---- collected from the other properties' developments; each statement is the one proved there (same models) ---- *)
+Notation same_as T := ltac:(let t := type of T in exact t) (only parsing).
+(* DecodeType, every type oid, every byte string and tail (after the D30/D33 repairs) *)
+Theorem C10_no_panic_DecodeType : same_as PG.Props.C04.C04_no_panic.
+Proof. exact PG.Props.C04.C04_no_panic. Qed.
+(* DecodeNumeric and decodeJNumeric *)
+Theorem C10_no_panic_DecodeNumeric : same_as PG.Props.C05.C05_no_panic.
+Proof. exact PG.Props.C05.C05_no_panic. Qed.
+(* ParseJSONB returns a value on EVERY input: no panic, and the fuel len(data)+1 always suffices (termination) *)
+Theorem C10_total_ParseJSONB : same_as PG.Props.C06.C06_total.
+Proof. exact PG.Props.C06.C06_total. Qed.
+Theorem C10_total_DecodeType_jsonb : same_as PG.Props.C06.C06_oid_total.
+Proof. exact PG.Props.C06.C06_oid_total. Qed.
+(* arrays: no panic, element count and allocation request bounded by 8*len(raw), nothing read beyond len *)
+Theorem C10_no_panic_decodeArray : same_as PG.Props.C07.C07_no_panic.
+Proof. exact PG.Props.C07.C07_no_panic. Qed.
+Theorem C10_alloc_bound_decodeArray : same_as PG.Props.C07.C07_alloc_bound.
+Proof. exact PG.Props.C07.C07_alloc_bound. Qed.
+Theorem C10_tail_independent_decodeArray : same_as PG.Props.C07.C07_reads_within_len.
+Proof. exact PG.Props.C07.C07_reads_within_len. Qed.
+(* block ranges, block info, segments, checksum verification (8 entry points) *)
+Theorem C10_no_panic_blocks_checksums : same_as PG.Props.C19.C19_no_panic.
+Proof. exact PG.Props.C19.C19_no_panic. Qed.
+(* quoteLiteral's dollar-tag search always terminates with a result *)
+Theorem C10_total_quoteLiteral : same_as PG.Props.C13.C13_literal_total.
+Proof. exact PG.Props.C13.C13_literal_total. Qed.
+(* bytesContains / bytesEqual never panic and never read beyond len *)
+Theorem C10_no_panic_bytesContains : same_as PG.Props.C15.C15_bytes_contains.
+Proof. exact PG.Props.C15.C15_bytes_contains. Qed.
+Print Assumptions C10_no_panic_DecodeType.
+Print Assumptions C10_no_panic_DecodeNumeric.
+Print Assumptions C10_total_ParseJSONB.
+Print Assumptions C10_no_panic_decodeArray.
+Print Assumptions C10_no_panic_blocks_checksums.
 
 (* termination/fuel: the heap scan's loops are structural on len/8192 and len/4+1 — by construction; the refinement
    theorem shows the fuel never runs out prematurely (the model result equals the total pure function) *)
